@@ -349,6 +349,37 @@ def run(F, R, tier):
         R.ob("C16-c", "%s hands out every star re-export" % fn.split("::")[-1], len(reads) >= 1 and not filt,
              "%s drops some of the module's `export * from` statements (`%s`): names forwarded by them vanish from the resolved export set and definitions behind them become unresolved" % (fn.split("::")[-1], expr_text(filt[0])[:50] if filt else "no read of re_exports"), where(filt[0]) if filt else b["file"])
 
+    # member versus export placement: which declarations count as static
+    cm = F.body("symbols::analyzer::SymbolFiller::create_symbol_member_or_export")
+    tm = [n for n in cm["_nodes"] if n["k"] == "Match" and tyc(F, n["scrut"], "SymbolNodeRef")]
+    n_st = 0
+    if R.ob("C16-a", "placement table found", len(tm) >= 1, "create_symbol_member_or_export no longer dispatches on the node kind", cm["file"]):
+        for arm in tm[0]["arms"]:
+            v, _c = pat_variants(arm["pat"])
+            body = peel(arm["body"])
+            els = body.get("args") or body.get("elems") or []
+            if body.get("k") != "Tup" or len(els) != 3:
+                continue
+            st = peel_value(els[1])
+            for x in v:
+                nm = x.split("::")[-1]
+                if nm == "TsIndexSignature":
+                    want, ok = "the signature's own is_static (classes may declare static index signatures)", st.get("k") == "Field" and st["field"] == "is_static"
+                elif nm.startswith("Ts") and ("Signature" in nm):
+                    want, ok = "false (interface / type-literal members are instance members)", st.get("k") == "Lit" and st.get("v") is False
+                elif nm in ("Constructor", "ExpandoProperty"):
+                    want, ok = "true", st.get("k") == "Lit" and st.get("v") is True
+                elif nm in ("AutoAccessor", "ClassMethod", "ClassProp"):
+                    want, ok = "the member's own is_static", st.get("k") == "Field" and st["field"] == "is_static"
+                elif nm == "ClassParamProp":
+                    want, ok = "false", st.get("k") == "Lit" and st.get("v") is False
+                else:
+                    continue
+                n_st += 1
+                R.ob("C16-a", "%s is placed as %s" % (nm, "export (static)" if "true" == want else ("member" if want.startswith("false") else "static or member by its own flag")), ok,
+                     "create_symbol_member_or_export treats %s with is_static = `%s` (expected %s): the declaration is registered on the wrong side (export vs member), so `T[\"name\"]` / `T.name` lookups and fast-check tracing resolve to nothing" % (nm, expr_text(st), want), where(arm["body"]))
+    R.floor("C16-a placement table rows", n_st, 12)
+
     # ---------------- C16-e ------------------------------------------------
     from . import c09
     c09.prefer_types_sites(F, R, tag="C16-e")
